@@ -307,18 +307,47 @@ def _handle_read(ctx, run, f):
                           "size of the message buffer): a client announcing a length in between aborts the daemon"
                           % ex.pretty(f, a.R.node)[:60], ex.loc(f, a.L.node), witness={"accepted_bound": ex.pretty(f, a.R.node)})
     run.floor("phase-two sinks of the message length", len(sinks), 2)
+    # From the store of the client's length every path to a sink has to take an edge on which the length is known to
+    # be legal (readLen <= capacity and readLen >= header size).  Decided by cutting those edges out of the CFG: the
+    # sinks must then be unreachable from the store.  (An edge-cut, not "the failing edge cannot reach the sink": the
+    # test may as well be evaluated into a flag first and branched on later.)
+    F_LEN = "VBIPROXY_MSG_STATE.readLen"
+    stores_len = [(b_, i_) for b_, i_ in flow.all_events(f) for lhs, var, op, rhs in flow.stores(f, i_)
+                  if lhs is not None and rhs is not None and f.exprs[ex.skip(f, lhs)]["k"] == "mem"
+                  and f.exprs[ex.skip(f, lhs)]["member"] == "readLen" and ex.const(f, rhs) is None]
+    if not stores_len:
+        raise AnalysisBroken("vbi_proxy_msg_handle_read: the store of the received length was not found")
+
+    def cut_reach(start, need_upper):
+        seen, st = set(), [start]
+        while st:
+            n = st.pop()
+            if n in seen:
+                continue
+            seen.add(n)
+            for s2, lab in f.edges(n):
+                ats = atoms.edge_atoms(f, n, lab) if lab in ("T", "F") else []
+                up = any(a.L.has(F_LEN) and a.rel in ("<=", "<") and a.R is not None and (a.R.locals or a.R.const is not None) for a in ats)
+                lo = any(a.L.has(F_LEN) and a.rel in (">=", ">") and a.R is not None and a.R.const is not None and a.R.const >= 1 for a in ats)
+                if (up if need_upper else lo):
+                    continue
+                st.append(s2)
+        return seen
     for bid, i, what in sinks:
         reach = None
-        for src, s, a in bad_edges:
-            if bid in flow.reach_from(f, s):
-                reach = a
+        for sb, si in stores_len:
+            for need_upper in (True, False):
+                if bid in cut_reach(sb, need_upper):
+                    reach = "readLen <= capacity" if need_upper else "readLen >= header size"
         key = "RF-TAINT:vbi_proxy_msg_handle_read:%s" % what.split(" ")[0]
         if reach is not None:
-            run.violation("RF-TAINT", key, "after the length test `%s` found the client's length illegal, control still reaches `%s`: "
-                          "an oversized length aborts the daemon, an undersized one makes readLen - readOff wrap and recv() write past "
-                          "the message buffer" % (repr(reach), what), ex.loc(f, i), witness={"sink": what, "failing_test": repr(reach)})
+            run.violation("RF-TAINT", key, "a path from the store of the client's length reaches `%s` without passing an edge on "
+                          "which `%s` holds: an oversized length aborts the daemon, an undersized one makes readLen - readOff wrap "
+                          "and recv() write past the message buffer" % (what, reach), ex.loc(f, i),
+                          witness={"sink": what, "missing_fact": reach})
         else:
-            run.holds("RF-TAINT", key, "`%s` is unreachable from the illegal-length edges" % what, ex.loc(f, i))
+            run.holds("RF-TAINT", key, "`%s` is reachable from the store of the received length only through edges on which the "
+                      "length is within [header size, capacity]" % what, ex.loc(f, i))
 
 
 def _partial_read_asserts(ctx, run):
